@@ -339,6 +339,7 @@ def msAnisometrize (R : α) (s : MS α) (xs : List (Nat → α)) : List (List α
 
 /-! ### kriging assembly on isometrized positions (covariance block only) -/
 
+
 /-- entry `(i, j)` of the covariance block of the kriging matrix for lat-lon conditioning points:
     `model.covariance(cdist(krige_pos, krige_pos))` with `krige_pos = isometrize(cond_pos)` -/
 def krigeEntry (cov : α → α) (R : α) (lat lon : Nat → α) (i j : Nat) : α :=
@@ -360,6 +361,63 @@ def krigeEntryLL (cov : α → α) (R : α) (temporal : Bool) (anis : List α) (
 /-- right-hand-side entry for a target `(tlat, tlon, tt)` -/
 def krigeRhsLL (cov : α → α) (R : α) (temporal : Bool) (anis : List α) (lat lon t : Nat → α) (tlat tlon tt : α) (i : Nat) : α :=
   cov (sqrt (distSq (isometrizeLL R temporal anis (lat i) (lon i) (t i)) (isometrizeLL R temporal anis tlat tlon tt)))
+
+/-! ### a kriging object on a lat-lon / temporal model between calls
+
+`Krige.set_condition` computes `_krige_pos = model.isometrize(cond_pos)` with the model object AS IT IS AT THAT MOMENT
+(`krige/base.py`); `set_condition()` without arguments is the documented refresh after model properties were changed.
+`Krige.__call__` isometrizes the given / stored targets with the CURRENT model (`pre_pos`).  The object refers to a
+model object: `krige.model.anis = …` changes it in place (`msStep`), `krige.model = m` swaps it (another `geo_scale`,
+other parameters).  Nothing else about transformed coordinates is kept. -/
+
+structure KS (α : Type) where
+  /-- `geo_scale` of the model object currently held -/
+  R : α
+  model : MS α
+  /-- `Krige.cond_pos`, one point per entry (`lat, lon[, t]` for lat-lon models) -/
+  cond : List (Nat → α)
+  /-- `Krige._krige_pos` -/
+  kpos : List (List α)
+  /-- `Field.pos`: the targets of the last call that was given positions -/
+  pos : List (Nat → α)
+
+inductive KOp (α : Type) where
+  /-- `krige.model.<anis | angles | len_scale | dim> = v` -/
+  | setter (op : MOp α)
+  /-- `krige.model = Model(latlon, temporal, geo_scale=R, dim, len_scale, anis, angles)` (a raising constructor assigns nothing) -/
+  | replace (R : α) (latlon temporal : Bool) (dim : Nat) (ls anis angles : List α)
+  /-- `krige.set_condition(cond_pos, …)` / `krige.set_condition()` -/
+  | setCond (c : Option (List (Nat → α)))
+  /-- `krige(pos)` / `krige()` -/
+  | call (p : Option (List (Nat → α)))
+
+inductive KOut (α : Type) where
+  | status (s : String)
+  | kpos (k : List (List α))
+  | iso (q : List (List α))
+
+/-- `Krige(model, cond_pos, …)`: the constructor ends with `set_condition(cond_pos, …)` -/
+def ksInit (R : α) (m : MS α) (cond : List (Nat → α)) : KS α := ⟨R, m, cond, msIsometrize R m cond, []⟩
+
+def ksStep (s : KS α) : KOp α → KS α × KOut α
+  | .setter op => let r := msStepKeep s.model op; ({ s with model := r.1 }, .status r.2)
+  | .replace R ll tm d ls an ag =>
+    match msInit ll tm d ls an ag with
+    | .ok m => ({ s with R := R, model := m }, .status "ok")
+    | .error e => (s, .status e)
+  | .setCond (some c) => ({ s with cond := c, kpos := msIsometrize s.R s.model c }, .kpos (msIsometrize s.R s.model c))
+  | .setCond none => ({ s with kpos := msIsometrize s.R s.model s.cond }, .kpos (msIsometrize s.R s.model s.cond))
+  | .call (some p) => ({ s with pos := p }, .iso (msIsometrize s.R s.model p))
+  | .call none => (s, .iso (msIsometrize s.R s.model s.pos))
+
+def ksRun (s : KS α) : List (KOp α) → List (KS α × KOut α)
+  | [] => []
+  | op :: rest => let r := ksStep s op; r :: ksRun r.1 rest
+
+def ksFinal (s : KS α) (ops : List (KOp α)) : KS α := ops.foldl (fun st op => (ksStep st op).1) s
+
+/-- the distances the covariance block / the right-hand sides are evaluated on: `cdist(_krige_pos, iso_pos)` -/
+def distTab (a b : List (List α)) : List (List α) := a.map fun x => b.map fun y => sqrt (distSq x y)
 
 /-- covariance of `gs.Exponential(var, len_scale)` (driver instance of the abstract `cov`) -/
 def expCov (var len r : α) : α := var * exp (-(r / len))
@@ -567,6 +625,47 @@ def ops (op : String) (j : Json) : Option (Except String Json) :=
           Json.arr #[Json.str status, Json.num (JsonNumber.fromNat st.dim), fbits st.lenScale, fl st.anis, fl st.angles,
             fl2 iso, fl2 ani]
         return Json.arr ((obs s0 "ok") :: (msRun s0 ops.toList).map fun r => obs r.1 r.2).toArray)
+  | "ll_krige_hist" => some (do
+      -- a Krige object on a lat-lon / temporal / plain model: constructor (= set_condition with positions), then in-place
+      -- setters, model replacement (other geo_scale / parameters), set_condition with / without positions, calls with / without
+      -- targets; per operation: status | _krige_pos + distances among it | isometrized targets + distances _krige_pos -> targets
+      let latlon ← getBool j "latlon"; let temporal ← getBool j "temporal"; let dim ← getNat j "dim"
+      let R ← getF j "R"
+      let ls ← getFloats j "len_scale"; let anis ← getFloats j "anis"; let angles ← getFloats j "angles"
+      let ptsOf (o : Json) : Except String (Option (List (Nat → Float))) :=
+        match o.getObjVal? "pos" with
+        | .ok (Json.arr _) => do
+          let n ← getNat o "n"; let p ← getFloats o "pos"      -- 4 × n row-major table, first rows used
+          pure (some ((List.range n).map fun c => fun i => p.getD (i * n + c) 0.0))
+        | _ => pure none
+      let c0 ← ptsOf j
+      let ov ← j.getObjVal? "ops"
+      let oa ← ov.getArr?
+      let ops ← oa.mapM fun o => do
+        let k ← getStr o "k"
+        match k with
+        | "anis" => do let v ← getFloats o "v"; pure (KOp.setter (MOp.setAnis v.toList))
+        | "angles" => do let v ← getFloats o "v"; pure (KOp.setter (MOp.setAngles v.toList))
+        | "len" => do let v ← getFloats o "v"; pure (KOp.setter (MOp.setLenScale v.toList))
+        | "dim" => do let d ← getNat o "d"; pure (KOp.setter (MOp.setDim d))
+        | "replace" => do
+          let r ← getF o "R"; let ll ← getBool o "latlon"; let tm ← getBool o "temporal"; let d ← getNat o "dim"
+          let l ← getFloats o "len_scale"; let an ← getFloats o "anis"; let ag ← getFloats o "angles"
+          pure (KOp.replace r ll tm d l.toList an.toList ag.toList)
+        | "cond" => do let p ← ptsOf o; pure (KOp.setCond p)
+        | "call" => do let p ← ptsOf o; pure (KOp.call p)
+        | _ => throw s!"unknown kriging-history op {k}"
+      match msInit latlon temporal dim ls.toList anis.toList angles.toList with
+      | .error e => return Json.str e
+      | .ok m0 =>
+        let s0 := ksInit R m0 (c0.getD [])
+        let first := Json.arr #[Json.str "kpos", fl2 s0.kpos, fl2 (distTab s0.kpos s0.kpos)]
+        let outs := (ksRun s0 ops.toList).map fun (r : KS Float × KOut Float) =>
+          match r.2 with
+          | .status st => Json.str st
+          | .kpos k => Json.arr #[Json.str "kpos", fl2 k, fl2 (distTab k k)]
+          | .iso q => Json.arr #[Json.str "iso", fl2 q, fl2 (distTab r.1.kpos q)]
+        return Json.arr (first :: outs).toArray)
   | "ll_fitlag" => some (do
       let R ← getF j "R"; let latlon ← getBool j "latlon"; let x ← getFloats j "x"
       return fl (x.toList.map (fitLag latlon R)))
